@@ -2,7 +2,7 @@
 PROPS = {}
 PROPS["C02"] = {
     "level": "exploration",
-    "rule": "one evaluation = one (extractor, required path, input bytes) fed to Extract the way the walk does it (file opened through the scan FS, Root set); non-trivial = Extract produced at least one package, returned an error or panicked (the input reached the extractor's parser/validator); distinct by (extractor, path, SHA-256 of the input bytes). Classes 'ext:<name>:<result>' are the per-extractor outcome table (ok_packages, ok_empty, error, error_with_packages, panic, overrun), 'mut:<op>' the mutator distribution, 'containment_scan' the number of real Scanner.Scan containment checks (each under one of the option sets ErrorOnFSErrors / StoreAbsolutePath / UseGitignore / PrintDurationAnalysis)",
+    "rule": "one evaluation = one (extractor, required path, input bytes, bytes of one neighbour file when that is what the case mutates) fed to Extract the way the walk does it (file opened through the scan FS, Root set, neighbour files such as etc/os-release, _locales/*, go.sum in place); non-trivial = Extract produced at least one package, returned an error or panicked (the input reached the extractor's parser/validator); distinct by (extractor, path, SHA-256 of the input bytes). Classes 'ext:<name>:<result>' are the per-extractor outcome table (ok_packages, ok_empty, error, error_with_packages, panic, overrun), 'mut:<op>' the mutator distribution, 'containment_scan' the number of real Scanner.Scan containment checks (each under one of the option sets ErrorOnFSErrors / StoreAbsolutePath / UseGitignore / PrintDurationAnalysis)",
     "assumptions": [
         "all 58 built-in filesystem extractors of list.All except java/pomxmlnet (needs network) are exercised; required paths come from probing FileRequired with production paths and the names under each extractor's testdata",
         "seeds: every fixture under the extractor's testdata up to 256 KiB (larger ones are not used), minus the fixture files emptied in this sandbox, plus a few tiny literal documents; inputs are capped at 256 KiB",
@@ -10,9 +10,9 @@ PROPS["C02"] = {
         "a panic is attributed to (extractor, innermost function of github.com/google/osv-scalibr on the panic stack); known findings are excluded by that call site only",
     ],
     "engine": "rapid",
-    "technique": "structure-aware mutation of fixture corpora (rapid-drawn, shrinkable, replayable) plus an enumerated sweep that deletes and duplicates every single line of every text fixture and archive metadata member; Extract runs in a child process under recover, a deadline and an allocation watchdog, so that hangs and fatal runtime errors are attributed to their input and re-confirmed in a fresh process; containment checked by real scans",
+    "technique": "structure-aware mutation of fixture corpora (rapid-drawn, shrinkable, replayable) plus an enumerated sweep over every text fixture, archive metadata member and text neighbour file (each line deleted / duplicated / re-terminated, whole-document CRLF / double conversion / BOM / no final newline, cut-off at byte offsets, sub-token deletion inside scalars) and over every ELF fixture (section header fields set to hostile values); Extract runs in a child process under recover, a deadline and an allocation watchdog, so that hangs and fatal runtime errors are attributed to their input and re-confirmed in a fresh process; containment checked by real scans",
     "level_text": "Sampled exploration of the input space of each built-in extractor at fuzzing scale; every evaluation is decided by an oracle that needs no expected output (no panic, budget, containment).",
-    "level_note": "Memory is observed through allocation totals (polled every 150 ms, so a runaway allocation is stopped early), not peak RSS. Binary formats whose fixtures were emptied in this sandbox (Go binaries, rpm sqlite/ndb, vmlinuz) only get synthetic or truncated seeds. No coverage-guided native fuzzing leg: the thorough tier is 16 shards x 3000 rapid mutants per extractor. The line sweep (leg TestC02_linesweep, class 'linesweep') visits up to 160 (quick) / 1200 (thorough) lines per fixture or archive member, the first half of the budget from the top. Known findings: panics and fatal errors are counted and skipped by call site; the quadratic YAML/TOML inputs are capped in the generator (repeat <= 64 copies, nesting <= 1000); os/rpm runs with a 300 ms parse timeout; dotnet/pe and os/macapps cases get a 3 s deadline while their overrun class is listed.",
+    "level_note": "Memory is observed through allocation totals (polled every 150 ms, so a runaway allocation is stopped early), not peak RSS. Binary formats whose fixtures were emptied in this sandbox (Go binaries, rpm sqlite/ndb, vmlinuz) only get synthetic or truncated seeds. No coverage-guided native fuzzing leg: the thorough tier is 16 shards x 3000 rapid mutants per extractor. The sweep (leg TestC02_linesweep, classes 'linesweep_<op>', 'linesweep_aux') has a per-target budget of 96 lines, 48 cut-off offsets and 5+5 scalars in the quick tier, 1200 / 1024 / 48+48 in the thorough tier. Containment scans run under generated scan options, a third of them with every extractor of the registry enabled and compared with the scan in which only the three extractors concerned are enabled. Known findings: panics and fatal errors are counted and skipped by call site; the quadratic YAML/TOML inputs are capped in the generator (repeat <= 64 copies, nesting <= 1000); os/rpm runs with a 300 ms parse timeout; dotnet/pe and os/macapps cases get a 3 s deadline while their overrun class is listed.",
     "legs": [
         {"fam": "fuzzfam", "run": "^TestC02_(linesweep|mutants)$"},
     ],
@@ -21,7 +21,7 @@ PROPS["C02"] = {
 
 PROPS["C06"] = {
     "level": "exploration",
-    "rule": "scan leg: one evaluation = one sandbox (tree with files of every offline built-in extractor at production paths in the states valid/empty/truncated/corrupt, working directory, TMPDIR) scanned once under one capability tuple through a real or a virtual root; non-trivial = the tree holds a file of an enabled extractor that reads through a host path (os/rpm, dotnet/pe, containers/containerd). image leg: one evaluation = one set of hostile layer tars loaded by one of FromV1Image / FromTarball / UnpackSquashed / UnpackSquashedFromTarball (+ CleanUp); non-trivial = at least one entry whose cleaned name or link target lies lexically outside the designated directory, or a symlink-then-write-through sequence; distinct by case JSON. Two of five image cases carry a shared-link-target group: 2..4 symlink / hard-link entries at depths 1..5 with one byte-identical relative target string ('..', '../..', '../../..', '../x', '../../<existing sibling>', './..', 'a/../../..', ...), deepest first, shallowest first or as drawn, inside one layer or spread over the layers in the order the loader reads them, each usually followed by a regular entry written through it (<link>/escaped/<file>); classes 'shared_link_target_diff_depth' (+ _deep_first, _shallow_first, _hardlink, _symlink, _same_layer, _cross_layer, _harmless_then_escaping[_hardlink|_cross_layer|_to_existing], _escaping_then_harmless, _both_escaping, _both_harmless, _written_through_escaping[_later]), 'shared_link_target:<string>' and 'shared_link_depth:<n>' count the cases that contain such a pair, each label once per case, positions taken in the stream order of the loader (UnpackSquashed reads the top layer first)",
+    "rule": "scan leg: one evaluation = one sandbox (tree with files of every offline built-in extractor at production paths in the states valid/empty/truncated/corrupt, the neighbour files those extractors open (second database, locale files, go.sum, included requirement files) valid/empty/truncated/corrupt/absent, also enumerated per extractor in leg TestC06_scanaux, working directory, TMPDIR) scanned once under one capability tuple through a real or a virtual root; non-trivial = the tree holds a file of an enabled extractor that reads through a host path (os/rpm, dotnet/pe, containers/containerd). image leg: one evaluation = one set of hostile layer tars loaded by one of FromV1Image / FromTarball / UnpackSquashed / UnpackSquashedFromTarball (+ CleanUp); non-trivial = at least one entry whose cleaned name or link target lies lexically outside the designated directory, or a symlink-then-write-through sequence; distinct by case JSON. Two of five image cases carry a shared-link-target group: 2..4 symlink / hard-link entries at depths 1..5 with one byte-identical relative target string ('..', '../..', '../../..', '../x', '../../<existing sibling>', './..', 'a/../../..', ...), deepest first, shallowest first or as drawn, inside one layer or spread over the layers in the order the loader reads them, each usually followed by a regular entry written through it (<link>/escaped/<file>); classes 'shared_link_target_diff_depth' (+ _deep_first, _shallow_first, _hardlink, _symlink, _same_layer, _cross_layer, _harmless_then_escaping[_hardlink|_cross_layer|_to_existing], _escaping_then_harmless, _both_escaping, _both_harmless, _written_through_escaping[_later]), 'shared_link_target:<string>' and 'shared_link_depth:<n>' count the cases that contain such a pair, each label once per case, positions taken in the stream order of the loader (UnpackSquashed reads the top layer first)",
     "assumptions": [
         "scan: Capabilities is always set; a virtual root is scanned with DirectFS=false, a real root with DirectFS=true; java/pomxmlnet (network) is not enabled",
         "scan: os/rpm runs with a 300 ms parse timeout instead of 5 min (C02 known finding os/rpm|bdb_overflow_cycle_timeout); trees with sockets/FIFOs are out of scope",
